@@ -169,22 +169,28 @@ Example C19_fcgi_status_written_in_range_nonvacuous :
 Proof. split; reflexivity. Qed.
 
 (* ---- request-derived FastCGI params, request path ---- *)
-(* writePairs (repaired: the cut length is clamped at 0 when the name leaves no room) *)
+(* writePairs (repaired: the cut length is clamped at 0 when the name leaves no room; the size
+   test is on the encoded pair) *)
 Theorem C19_write_pair_no_panic :
   forall klen vlen : Z, (0 <= klen)%Z -> (0 <= vlen)%Z -> write_pair_len klen vlen <> Panic.
 Proof. exact write_pair_no_panic. Qed.
 Print Assumptions C19_write_pair_no_panic.
 
+(* a pair that fits one record is sent whole; otherwise the value is cut so that
+   8+len(k)+len(v') = 65500, or to nothing when the name is longer than 65492 bytes *)
 Theorem C19_write_pair_truncation :
   forall klen vlen l : Z, (0 <= klen)%Z -> (0 <= vlen)%Z ->
     write_pair_len klen vlen = Ok l ->
-    (0 <= l <= vlen)%Z /\ ((8 + klen + l <= 65500)%Z \/ l = 0%Z) /\ ((8 + klen + vlen <= 65500)%Z -> l = vlen).
+    (0 <= l <= vlen)%Z /\
+    ((enc_pair_len klen vlen <= 65500)%Z -> l = vlen) /\
+    ((65500 < enc_pair_len klen vlen)%Z -> (8 + klen + l = 65500)%Z \/ ((65492 < klen)%Z /\ l = 0%Z)).
 Proof. exact write_pair_spec. Qed.
 Print Assumptions C19_write_pair_truncation.
 
 Example C19_write_pair_truncation_nonvacuous :
-  write_pair_len 20 70000 = Ok 65472%Z /\ write_pair_len 65493 5 = Ok 0%Z.
-Proof. split; reflexivity. Qed.
+  write_pair_len 20 70000 = Ok 65472%Z /\ write_pair_len 65493 5 = Ok 0%Z /\
+  write_pair_len 10 65485 = Ok 65485%Z.
+Proof. repeat split; reflexivity. Qed.
 
 (* the path gate (repaired: strings.HasSuffix(fpath, "/") instead of fpath[len(fpath)-1]) *)
 Theorem C19_fcgi_path_gate_no_panic :
